@@ -155,8 +155,14 @@ def usingRounds (cls : Cls) (a : UsingArgs) : Res Cls :=
 def varyAmount (c : Cls) (floatVaryInt : Int) : Int :=
   match c.vary with | .int v => v | .float => floatVaryInt | .none => 0
 
+/-- the hard-limit clip at the end of `_calc_vary_rounds_range`:
+    `lower = max(lower, cls.min_rounds)`; `if cls.max_rounds: upper = min(upper, cls.max_rounds)` -/
+def hardLo (c : Cls) (x : Int) : Int := max x c.hardMin
+def hardHi (c : Cls) (x : Int) : Int := match eff c.hardMax with | some h => min x h | none => x
+
 def varyRange (c : Cls) (dflt : Int) (floatVaryInt : Int) : Int × Int :=
-  (clipToDesired c (dflt - varyAmount c floatVaryInt), clipToDesired c (dflt + varyAmount c floatVaryInt))
+  (hardLo c (clipToDesired c (dflt - varyAmount c floatVaryInt)),
+   hardHi c (clipToDesired c (dflt + varyAmount c floatVaryInt)))
 
 def varyTruthy : Vary → Bool
   | .none => false
@@ -170,7 +176,6 @@ def generateRounds (c : Cls) (draw : Nat) (floatVaryInt : Int := 0) : Res Int :=
   | some d =>
     let r : Res Int :=
       if varyTruthy c.vary then
-        if d = 0 then .error .assertionError else      -- `assert default_rounds` in _calc_vary_rounds_range
         let lower := (varyRange c d floatVaryInt).1
         let upper := (varyRange c d floatVaryInt).2
         if lower ≤ d ∧ d ≤ upper then
@@ -178,6 +183,13 @@ def generateRounds (c : Cls) (draw : Nat) (floatVaryInt : Int := 0) : Res Int :=
         else .error .assertionError
       else .ok d
     r.map fun r => if c.forceOdd then (if r % 2 = 0 then r + 1 else r) else r
+
+/-- what `HasRounds.__init__(use_defaults=True)` does with the generated value:
+    `assert self._norm_rounds(rounds) == rounds` — `_norm_rounds` (not relaxed) raises ValueError outside the hard limits -/
+def generateChecked (c : Cls) (draw : Nat) (floatVaryInt : Int := 0) : Res Int :=
+  match generateRounds c draw floatVaryInt with
+  | .error e => .error e
+  | .ok r => normRounds c r false
 
 /-- `_calc_needs_update` (HasRounds part, plus bsdi's even-rounds flag) -/
 def outsideWin (mn mx : Option Int) (rounds : Int) : Bool :=
